@@ -137,7 +137,7 @@ def inv_of_name(summands):
         elif ty == "sp":
             simples.append((m * (2 * m + 1), 2 if m >= 3 else 0, k))
         elif ty == "su":
-            simples.append((m * m - 1, 0, k))
+            simples.append((m * m - 1, label_of_block(m * m - 1, m * m // 2 - 1), k))  # su(64): 4095 = dim sp(45), label 3
     return z, merge(simples)
 
 def show_inv(size, inv):
